@@ -56,7 +56,7 @@ def run(run):
                 "geometry kinds x both APIs x a pool of geometries (part/ring vectors, closed and unclosed rings, nil) and attribute "
                 "edge values; seeded random files of up to 60 records. Non-trivial = a file with >= 2 records or a record whose stored "
                 "form differs from the written one; distinct = distinct (kind, api, record sequence)")
-    run.assumptions = ["coordinates are six finite float64 bit patterns (ids); strings have no leading/trailing spaces; values fit the field widths",
+    run.assumptions = ["coordinates are six finite float64 bit patterns (ids); strings have no leading/trailing blanks (other white space is kept); values fit the field widths",
                        "decoding uses a struct with an interface geometry field and differently cased names/tags"]
 
 
